@@ -60,6 +60,69 @@ type c17Input struct {
 	// from an earlier call (cached buffers, pools, state kept in the AEAD object) and writes
 	// later shows up as a change of those arrays.
 	WarmArgs map[string]view `json:"warm_args,omitempty"`
+	// Prev: the earlier calls of a CHAIN, executed (in order, in one session) before this call.
+	// Arrays of a step are appended to the session's arrays; every non-empty byte slice a call
+	// returns that does not point into an array the session already holds is kept by the
+	// harness as a further array r[:cap(r)] (it is caller memory from then on).  Views of later
+	// steps index this growing list, so outputs of earlier calls serve as plaintext, associated
+	// data, key, ... of later ones, and EVERY array held (earlier outputs included) is
+	// compared before/after every later call.
+	Prev []c17Input `json:"prev,omitempty"`
+}
+
+// session: the memory and the objects one chain of calls shares.
+type session struct {
+	arrs      [][]byte
+	objs      map[string]any
+	last      []view // where the results of the last call live (Arr -1: empty / none)
+	lastErr   string
+	lastPanic bool
+}
+
+func newSession() *session { return &session{objs: map[string]any{}} }
+
+// locate: the array holding p, if any.
+func (s *session) locate(r []byte) (int, int, bool) {
+	p := uintptr(unsafe.Pointer(&r[0]))
+	for a := range s.arrs {
+		if len(s.arrs[a]) == 0 {
+			continue
+		}
+		base := uintptr(unsafe.Pointer(&s.arrs[a][0]))
+		if p >= base && p < base+uintptr(len(s.arrs[a])) {
+			return a, int(p - base), true
+		}
+	}
+	return 0, 0, false
+}
+
+// hold keeps a returned slice: a view into an array already held, or a new array r[:cap(r)].
+func (s *session) hold(r []byte) view {
+	if len(r) == 0 {
+		return view{Arr: -1}
+	}
+	if a, off, ok := s.locate(r); ok {
+		c := cap(r)
+		if c > len(s.arrs[a])-off {
+			c = len(s.arrs[a]) - off
+		}
+		return view{Arr: a, Off: off, Len: len(r), Cap: c}
+	}
+	s.arrs = append(s.arrs, r[:cap(r)])
+	return view{Arr: len(s.arrs) - 1, Off: 0, Len: len(r), Cap: cap(r)}
+}
+
+func c17Run(ctx *core.Ctx, in c17Input) error {
+	s := newSession()
+	for _, step := range in.Prev {
+		step.Prev = nil
+		if err := s.exec(ctx, step, nil); err != nil {
+			return err
+		}
+	}
+	step := in
+	step.Prev = nil
+	return s.exec(ctx, step, &in)
 }
 
 // ---------------------------------------------------------------------------------------
@@ -301,13 +364,16 @@ func coqView(v view) string {
 	return fmt.Sprintf("(mkS %d %d %d %d)", v.Arr, v.Off, v.Len, v.Cap)
 }
 
-func c17Run(ctx *core.Ctx, in c17Input) error {
-	arrs := make([][]byte, len(in.Arrays))
-	pre := make([][]byte, len(in.Arrays))
-	for i, a := range in.Arrays {
-		arrs[i] = make([]byte, len(a))
-		copy(arrs[i], a)
-		pre[i] = clone(a)
+// exec performs one call in the session; with full != nil the call is recorded as a case whose
+// replayable input is *full.
+func (sess *session) exec(ctx *core.Ctx, in c17Input, full *c17Input) error {
+	for _, a := range in.Arrays {
+		sess.arrs = append(sess.arrs, clone(a))
+	}
+	arrs := sess.arrs
+	pre := make([][]byte, len(arrs))
+	for i := range arrs {
+		pre[i] = clone(arrs[i])
 	}
 	for _, m := range []map[string]view{in.Args, in.WarmArgs} {
 		for name, v := range m {
@@ -324,8 +390,8 @@ func c17Run(ctx *core.Ctx, in c17Input) error {
 		}
 		return view{Arr: -1}
 	}
-	// objects shared between the warm-up call and the observed call
-	objs := map[string]any{}
+	// objects shared between the calls of the session (warm-up call, earlier steps of a chain)
+	objs := sess.objs
 	get := func(name string) []byte {
 		v := vw(name)
 		if v.Arr < 0 {
@@ -390,7 +456,8 @@ func c17Run(ctx *core.Ctx, in c17Input) error {
 			call = func() { r, e := padding.UnpadPKCS7(get("buf"), in.Size); results, err = [][]byte{r}, e }
 		case "wrap", "unwrap":
 			var block cipher.Block
-			if b, ok := objs["block"]; ok {
+			bk := fmt.Sprintf("block:%x", in.KWKey)
+			if b, ok := objs[bk]; ok {
 				block = b.(cipher.Block)
 			} else {
 				b, berr := aes.NewCipher(clone(in.KWKey))
@@ -398,7 +465,7 @@ func c17Run(ctx *core.Ctx, in c17Input) error {
 					return berr
 				}
 				block = b
-				objs["block"] = b
+				objs[bk] = b
 			}
 			if in.Fn == "wrap" {
 				coqCall = "CWrap " + coqView(vw("cek"))
@@ -592,15 +659,8 @@ func c17Run(ctx *core.Ctx, in c17Input) error {
 			s := "RE"
 			if len(r) > 0 {
 				s = fmt.Sprintf("RF %d", len(r))
-				p := uintptr(unsafe.Pointer(&r[0]))
-				for a := range arrs {
-					if len(arrs[a]) == 0 {
-						continue
-					}
-					base := uintptr(unsafe.Pointer(&arrs[a][0]))
-					if p >= base && p < base+uintptr(len(arrs[a])) {
-						s = fmt.Sprintf("RA %d %d %d", a, int(p-base), len(r))
-					}
+				if a, off, ok := sess.locate(r); ok {
+					s = fmt.Sprintf("RA %d %d %d", a, off, len(r))
 				}
 			}
 			shapes = append(shapes, s)
@@ -609,6 +669,16 @@ func c17Run(ctx *core.Ctx, in c17Input) error {
 		for len(shapes) < nres {
 			shapes = append(shapes, "RE")
 		}
+	}
+	// keep what the call returned: it is the caller's memory from now on
+	sess.last, sess.lastErr, sess.lastPanic = nil, ec, panicked
+	if !panicked {
+		for _, r := range results {
+			sess.last = append(sess.last, sess.hold(r))
+		}
+	}
+	if full == nil {
+		return nil
 	}
 	keySame := true
 	if keyJSONBefore != nil {
@@ -620,7 +690,7 @@ func c17Run(ctx *core.Ctx, in c17Input) error {
 	for i, a := range pre {
 		coqPre[i] = coqBytes(a)
 	}
-	c := hx.Case{Kind: in.Fn, Input: hx.MustJSON(in), Facts: map[string]any{}}
+	c := hx.Case{Kind: in.Fn, Input: hx.MustJSON(*full), Facts: map[string]any{}}
 	c.Coq = fmt.Sprintf("Case (%s) %s %s %s %s %s %s %s", coqCall, env.coq(), hx.CoqList(coqPre),
 		hx.CoqList(chg), hx.CoqBool(panicked), ec, hx.CoqList(shapes), hx.CoqBool(keySame))
 
@@ -658,6 +728,7 @@ func c17Run(ctx *core.Ctx, in c17Input) error {
 	c.Facts["max_spare"] = maxSpare
 	c.Facts["min_spare"] = minSpare
 	c.Facts["note"] = in.Note
+	c.Facts["chain_pos"] = len(full.Prev)
 	c.Class = fmt.Sprintf("%s/%s%s/%s/%s/%s", in.Fn, in.Alg, in.Kind, in.Note, lens, outcome)
 	c.Trivial = total == 0
 	c.Observed = map[string]any{"err": ec, "panicked": panicked, "changed_cells": nchg, "results": obsRes}
@@ -668,6 +739,15 @@ func c17Run(ctx *core.Ctx, in c17Input) error {
 	ctx.Sink.Count("outcome=" + outcome)
 	ctx.Sink.Count(fmt.Sprintf("max_spare>=%d", spareBucket(maxSpare)))
 	ctx.Sink.Count(fmt.Sprintf("every_arg_spare>=%d", spareBucket(minSpare)))
+	if len(full.Prev) > 0 {
+		ctx.Sink.Count("chained_call(after earlier calls whose outputs are held)")
+		for _, v := range in.Args {
+			if v.Arr >= 0 && v.Arr < len(arrs)-len(in.Arrays) {
+				ctx.Sink.Count("chained_call_with_an_argument_from_an_earlier_call")
+				break
+			}
+		}
+	}
 	if nchg > 0 {
 		ctx.Sink.Count("calls_that_changed_some_cell(dst incl.)")
 	}
@@ -694,6 +774,7 @@ type builder struct {
 	r        *hx.Rand
 	in       c17Input
 	minSpare int // lower bound on the spare capacity of EVERY argument of this call
+	base     int // number of arrays the session already holds (chains)
 }
 
 // In half of the calls every argument has at least one AES block of spare capacity behind its
@@ -729,7 +810,7 @@ func (b *builder) addS(name string, data []byte, spare int) view {
 	tail := b.r.Intn(5)
 	arr := b.r.Bytes(prefix + len(data) + spare + tail)
 	copy(arr[prefix:], data)
-	v := view{Arr: len(b.in.Arrays), Off: prefix, Len: len(data), Cap: len(data) + spare}
+	v := view{Arr: b.base + len(b.in.Arrays), Off: prefix, Len: len(data), Cap: len(data) + spare}
 	b.in.Arrays = append(b.in.Arrays, arr)
 	b.in.Args[name] = v
 	return v
@@ -759,11 +840,11 @@ func (b *builder) addWarm() {
 	w := map[string]view{}
 	for _, n := range names {
 		v := b.in.Args[n]
-		if v.Arr >= 0 && !(hasKey && v.Arr == kv.Arr) {
+		if v.Arr >= b.base && !(hasKey && v.Arr == kv.Arr) {
 			na, ok := remap[v.Arr]
 			if !ok {
-				na = len(b.in.Arrays)
-				b.in.Arrays = append(b.in.Arrays, clone(b.in.Arrays[v.Arr]))
+				na = b.base + len(b.in.Arrays)
+				b.in.Arrays = append(b.in.Arrays, clone(b.in.Arrays[v.Arr-b.base]))
 				remap[v.Arr] = na
 			}
 			v.Arr = na
@@ -1282,42 +1363,473 @@ func genAsym(ctx *core.Ctx, perAlg int) {
 	}
 }
 
+// wrapText breaks text into lines of `cols` characters separated by eol.
+func wrapText(text []byte, cols int, eol string, trailing bool) []byte {
+	var out []byte
+	for len(text) > cols {
+		out = append(out, text[:cols]...)
+		out = append(out, eol...)
+		text = text[cols:]
+	}
+	out = append(out, text...)
+	if trailing {
+		out = append(out, eol...)
+	}
+	return out
+}
+
+// key material of every shape ParseKey accepts (raw bytes, base64 in the four alphabets, PEM,
+// JWK), below / at / above the sizes at which a heuristic could switch (the longest raw key is
+// 64 bytes; base64 wraps at 64 or 76 columns), single-line and wrapped with LF or CRLF, with line
+// breaks and blanks inside raw material, with every content type.
+var keySizes = []int{1, 15, 16, 24, 32, 47, 48, 63, 64, 65, 66, 96, 128, 200}
+
 func genParseKey(ctx *core.Ctx, n int) {
 	r := ctx.R
 	pems := []string{pemRSA, pemP256, pemEd25519}
+	encs := []*base64.Encoding{base64.StdEncoding, base64.RawStdEncoding, base64.URLEncoding, base64.RawURLEncoding}
+	encNames := []string{"std", "rawstd", "url", "rawurl"}
+	eols := []string{"\n", "\r\n"}
 	for k := 0; k < n; k++ {
 		b := newB(r, "parsekey")
 		var raw []byte
 		note := ""
-		switch r.Intn(8) {
+		sz := keySizes[r.Intn(len(keySizes))]
+		switch r.Intn(10) {
 		case 0:
-			raw = []byte(fmt.Sprintf(`{"kty":"oct","k":"%s"}`, base64.RawURLEncoding.EncodeToString(r.Bytes(32))))
-			note = "jwk"
+			jwkText := fmt.Sprintf(`{"kty":"oct","k":"%s"}`, base64.RawURLEncoding.EncodeToString(r.Bytes(sz)))
+			note = fmt.Sprintf("jwk%d", sz)
+			if r.Bool() {
+				jwkText = fmt.Sprintf("{\r\n  \"kty\": \"oct\",\n  \"k\": \"%s\"\n}\n", base64.RawURLEncoding.EncodeToString(r.Bytes(sz)))
+				note += "-pretty"
+			}
+			raw = []byte(jwkText)
 		case 1:
 			raw = []byte(pems[r.Intn(len(pems))])
 			note = "pem"
-		case 2:
-			raw = []byte(base64.StdEncoding.EncodeToString(r.Bytes([]int{16, 24, 32, 20}[r.Intn(4)])) + "\n")
-			note = "b64std"
-		case 3:
-			raw = []byte(base64.RawURLEncoding.EncodeToString(r.Bytes([]int{16, 24, 32, 21}[r.Intn(4)])))
-			note = "b64url"
-		case 4:
-			raw = append([]byte{'{'}, r.Bytes([]int{15, 23, 31}[r.Intn(3)])...)
-			note = "brace-raw"
+			if r.Bool() {
+				raw = bytes.ReplaceAll(raw, []byte("\n"), []byte("\r\n"))
+				note = "pem-crlf"
+			}
+		case 2, 3, 4:
+			e := r.Intn(4)
+			text := []byte(encs[e].EncodeToString(r.Bytes(sz)))
+			note = fmt.Sprintf("b64%s%d", encNames[e], sz)
+			switch r.Intn(4) {
+			case 0:
+				// one line
+			case 1:
+				text = append(text, eols[r.Intn(2)]...)
+				note += "+eol"
+			default:
+				cols, eol := []int{64, 76}[r.Intn(2)], r.Intn(2)
+				text = wrapText(text, cols, eols[eol], r.Bool())
+				note += fmt.Sprintf("/wrap%d%s", cols, []string{"lf", "crlf"}[eol])
+			}
+			raw = text
 		case 5:
+			raw = append([]byte{'{'}, r.Bytes(sz-1)...)
+			note = fmt.Sprintf("brace-raw%d", sz)
+		case 6:
 			raw = flip(r, []byte(pems[r.Intn(len(pems))]))
 			note = "pem-corrupt"
-		case 6:
+		case 7:
 			raw = nil
 			note = "empty"
+		case 8:
+			// raw bytes with line breaks / blanks / padding characters inside and at the ends
+			raw = r.Bytes(sz)
+			for j := r.Range(1, 4); j > 0 && len(raw) > 0; j-- {
+				raw[r.Intn(len(raw))] = []byte{'\n', '\r', ' ', '\t', '=', '\n'}[r.Intn(6)]
+			}
+			if r.Bool() {
+				raw = append(raw, eols[r.Intn(2)]...)
+			}
+			note = fmt.Sprintf("raw-ws%d", len(raw))
 		default:
-			raw = r.Bytes(r.Range(1, 40))
-			note = "raw"
+			raw = r.Bytes(sz)
+			note = fmt.Sprintf("raw%d", sz)
 		}
-		b.in.CType = []string{"", "", "", "application/json", "application/x-pem-file", "application/pkcs8", "text/plain"}[r.Intn(7)]
+		b.in.CType = []string{"", "", "", "", "application/json", "application/x-pem-file", "application/pkcs8", "text/plain", "application/octet-stream"}[r.Intn(9)]
 		b.add("raw", raw)
 		b.run(ctx, note+"/"+b.in.CType)
+	}
+}
+
+// ---------------------------------------------------------------------------------------
+// chains: calls in one session; outputs of earlier calls are held and fed to later calls
+
+type chain struct {
+	ctx   *core.Ctx
+	r     *hx.Rand
+	s     *session
+	steps []c17Input
+	held  []view // every non-empty output so far
+}
+
+func newChain(ctx *core.Ctx) *chain { return &chain{ctx: ctx, r: ctx.R, s: newSession()} }
+
+func (c *chain) newB(fn string) *builder {
+	b := newB(c.r, fn)
+	b.base = len(c.s.arrs)
+	return b
+}
+
+// run performs the next call of the chain and returns where its results live.
+func (c *chain) run(b *builder, note string) []view {
+	b.in.Note = fmt.Sprintf("chain%d/%s", len(c.steps), note)
+	full := b.in
+	full.Prev = append([]c17Input{}, c.steps...)
+	if err := c.s.exec(c.ctx, b.in, &full); err != nil {
+		panic(err)
+	}
+	c.steps = append(c.steps, b.in)
+	res := append([]view{}, c.s.last...)
+	for _, v := range res {
+		if v.Arr >= 0 && v.Len > 0 {
+			c.held = append(c.held, v)
+		}
+	}
+	for len(res) < 2 {
+		res = append(res, view{Arr: -1})
+	}
+	return res
+}
+
+func (c *chain) ok() bool { return c.s.lastErr == "ENone" && !c.s.lastPanic }
+
+func (c *chain) bytes(v view) []byte {
+	if v.Arr < 0 {
+		return nil
+	}
+	return clone(c.s.arrs[v.Arr][v.Off : v.Off+v.Len])
+}
+
+// use: the argument is an earlier output (the view itself) or, one time in four, a copy of it
+// in an arena of its own.
+func (c *chain) use(b *builder, name string, v view) {
+	if v.Arr < 0 || c.r.Chance(1, 4) {
+		b.addOpt(name, c.bytes(v))
+		return
+	}
+	b.in.Args[name] = v
+}
+
+var aeadSymAlgs = []string{
+	kitcrypto.Algorithm_A128GCM, kitcrypto.Algorithm_A192GCM, kitcrypto.Algorithm_A256GCM,
+	kitcrypto.Algorithm_A128CBC_HS256, kitcrypto.Algorithm_A192CBC_HS384, kitcrypto.Algorithm_A256CBC_HS512,
+	kitcrypto.Algorithm_C20P, kitcrypto.Algorithm_XC20P, kitcrypto.Algorithm_C20PKW, kitcrypto.Algorithm_XC20PKW,
+}
+
+var chainPtLens = []int{16, 24, 32, 32, 48, 64, 5, 40, 100}
+
+// pick an earlier output (nil view when there is none yet)
+func (c *chain) pick() view {
+	if len(c.held) == 0 {
+		return view{Arr: -1}
+	}
+	return c.held[c.r.Intn(len(c.held))]
+}
+
+// decryptRecord: DecryptSymmetric of a fresh valid AEAD record whose associated data is
+// `aad` (an earlier output, passed as the view itself, or own bytes).
+func (c *chain) decryptRecord(aad view, note string) {
+	r := c.r
+	alg := aeadSymAlgs[r.Intn(len(aeadSymAlgs))]
+	key, nonce := r.Bytes(symKeyLen(alg)), r.Bytes(symNonceLen(alg))
+	aadBytes := c.bytes(aad)
+	if aad.Arr < 0 {
+		aadBytes = r.Bytes(aadLen(r))
+	}
+	jk, _ := jwk.FromRaw(clone(key))
+	ct, tag, err := kitcrypto.EncryptSymmetric(r.Bytes(chainPtLens[r.Intn(len(chainPtLens))]), alg, jk, clone(nonce), clone(aadBytes))
+	if err != nil {
+		panic(err)
+	}
+	b := c.newB("decsym")
+	b.in.Alg, b.in.KeyKind = alg, "sym"
+	b.add("key", key)
+	b.add("nonce", nonce)
+	b.add("ct", clone(ct))
+	b.add("tag", clone(tag))
+	if aad.Arr < 0 {
+		b.addOpt("aad", aadBytes)
+	} else {
+		b.in.Args["aad"] = aad
+	}
+	c.run(b, note+"/"+alg)
+}
+
+// again: an earlier call of the chain once more - same function, algorithm and parameters,
+// byte-identical arguments in arenas of their own (the key: the same object, or a copy).  What the
+// earlier call returned is still held: scratch memory a helper reuses from call to call, and
+// that escaped to the caller the first time, is overwritten now.
+func (c *chain) again() {
+	r := c.r
+	prev := c.steps[r.Intn(len(c.steps))]
+	b := c.newB(prev.Fn)
+	b.in.Alg, b.in.Kind, b.in.Size, b.in.KWKey, b.in.KeyKind, b.in.CType = prev.Alg, prev.Kind, prev.Size, prev.KWKey, prev.KeyKind, prev.CType
+	names := make([]string, 0, len(prev.Args))
+	for n := range prev.Args {
+		names = append(names, n)
+	}
+	sort.Strings(names)
+	sameKey := r.Bool()
+	for _, n := range names {
+		v := prev.Args[n]
+		switch {
+		case v.Arr < 0:
+			b.in.Args[n] = v
+		case n == "key" && sameKey:
+			b.in.Args[n] = v
+		case n == "dst":
+			b.addS("dst", c.bytes(v), v.Cap-v.Len)
+		default:
+			b.add(n, c.bytes(v))
+		}
+	}
+	c.run(b, "again/"+prev.Fn+"/"+prev.Alg+prev.Kind)
+}
+
+// follow: one more call, most of the time with an earlier output in some argument position.
+func (c *chain) follow() {
+	r := c.r
+	if len(c.steps) > 0 && r.Chance(1, 3) {
+		c.again()
+		return
+	}
+	h := c.pick()
+	switch r.Intn(13) {
+	case 0, 1:
+		c.decryptRecord(h, "dec-aad=held")
+	case 2:
+		c.decryptRecord(view{Arr: -1}, "dec-bystander")
+	case 3, 4: // EncryptSymmetric with the earlier output as plaintext or associated data
+		alg := symAlgs[r.Intn(len(symAlgs))]
+		b := c.newB("encsym")
+		b.in.Alg, b.in.KeyKind = alg, "sym"
+		b.add("key", r.Bytes(symKeyLen(alg)))
+		b.addOpt("nonce", r.Bytes(symNonceLen(alg)))
+		if r.Bool() {
+			c.use(b, "pt", h)
+			b.addOpt("aad", r.Bytes(aadLen(r)))
+			c.run(b, "enc-pt=held/"+alg)
+		} else {
+			b.add("pt", r.Bytes(pickLen(r)))
+			c.use(b, "aad", h)
+			c.run(b, "enc-aad=held/"+alg)
+		}
+	case 5: // the earlier output as KEY
+		algs := map[int][]string{
+			16: {kitcrypto.Algorithm_A128GCM, kitcrypto.Algorithm_A128CBC, kitcrypto.Algorithm_A128KW},
+			24: {kitcrypto.Algorithm_A192GCM, kitcrypto.Algorithm_A192CBC, kitcrypto.Algorithm_A192KW},
+			32: {kitcrypto.Algorithm_A256GCM, kitcrypto.Algorithm_C20P, kitcrypto.Algorithm_XC20P, kitcrypto.Algorithm_A128CBC_HS256, kitcrypto.Algorithm_A256KW},
+			48: {kitcrypto.Algorithm_A192CBC_HS384},
+			64: {kitcrypto.Algorithm_A256CBC_HS512},
+		}[h.Len]
+		if h.Arr < 0 || algs == nil {
+			c.decryptRecord(h, "dec-aad=held")
+			return
+		}
+		alg := algs[r.Intn(len(algs))]
+		b := c.newB("encsym")
+		b.in.Alg, b.in.KeyKind = alg, "sym"
+		b.in.Args["key"] = h
+		b.addOpt("nonce", r.Bytes(symNonceLen(alg)))
+		b.add("pt", r.Bytes(8*r.Range(2, 6)))
+		b.addOpt("aad", r.Bytes(aadLen(r)))
+		c.run(b, "enc-key=held/"+alg)
+	case 6, 7: // aescbcaead Seal / Open with the earlier output as plaintext / associated data
+		kn := aeadKindNames[r.Intn(4)]
+		ak := aeadKinds[kn]
+		key, nonce := r.Bytes(ak.enc+ak.mac), r.Bytes(16)
+		if r.Bool() {
+			b := c.newB("seal")
+			b.in.Kind = kn
+			b.add("key", key)
+			b.add("nonce", nonce)
+			note := "seal-pt=held"
+			var pv view
+			if r.Bool() || h.Arr < 0 {
+				c.use(b, "pt", h)
+				b.addOpt("aad", r.Bytes(aadLen(r)))
+				pv = b.in.Args["pt"]
+			} else {
+				pv = b.add("pt", r.Bytes(pickLen(r)))
+				c.use(b, "aad", h)
+				note = "seal-aad=held"
+			}
+			if pv.Arr < 0 {
+				b.in.Args["dst"] = view{Arr: -1}
+			} else {
+				note += "/" + b.addDst(pv, pv.Len+16-pv.Len%16+ak.tag)
+			}
+			c.run(b, note+"/"+kn)
+		} else {
+			aadBytes := c.bytes(h)
+			a, _ := ak.construct(clone(key))
+			ct := a.Seal(nil, clone(nonce), r.Bytes(pickLen(r)), clone(aadBytes))
+			b := c.newB("open")
+			b.in.Kind = kn
+			b.add("key", key)
+			b.add("nonce", nonce)
+			cv := b.add("ct", ct)
+			if h.Arr < 0 {
+				b.in.Args["aad"] = view{Arr: -1}
+			} else {
+				b.in.Args["aad"] = h
+			}
+			c.run(b, "open-aad=held/"+b.addDst(cv, len(ct))+"/"+kn)
+		}
+	case 8: // padding
+		b := c.newB([]string{"pad", "unpad"}[r.Intn(2)])
+		b.in.Size = []int{16, 16, 8, 32}[r.Intn(4)]
+		c.use(b, "buf", h)
+		c.run(b, "buf=held")
+	case 9: // key wrap
+		b := c.newB([]string{"wrap", "unwrap"}[r.Intn(2)])
+		b.in.KWKey = r.Bytes([]int{16, 24, 32}[r.Intn(3)])
+		c.use(b, map[string]string{"wrap": "cek", "unwrap": "ct"}[b.in.Fn], h)
+		c.run(b, "data=held")
+	case 10: // sign the earlier output
+		alg := []string{kitcrypto.Algorithm_EdDSA, kitcrypto.Algorithm_ES256, kitcrypto.Algorithm_RS256, kitcrypto.Algorithm_PS384, kitcrypto.Algorithm_ES512}[r.Intn(5)]
+		kk := map[string]string{kitcrypto.Algorithm_EdDSA: "ed", kitcrypto.Algorithm_ES256: "p256", kitcrypto.Algorithm_RS256: "rsa",
+			kitcrypto.Algorithm_PS384: "rsa", kitcrypto.Algorithm_ES512: "p521"}[alg]
+		b := c.newB("sign")
+		b.in.Alg, b.in.KeyKind = alg, kk+"-priv"
+		c.use(b, "digest", h)
+		c.run(b, "digest=held/"+alg)
+	case 11: // public-key encryption of the earlier output
+		alg := []string{kitcrypto.Algorithm_RSA_OAEP, kitcrypto.Algorithm_RSA_OAEP_256, kitcrypto.Algorithm_RSA1_5}[r.Intn(3)]
+		b := c.newB("encpub")
+		b.in.Alg, b.in.KeyKind = alg, "rsa-pub"
+		if r.Bool() {
+			c.use(b, "pt", h)
+			b.addOpt("aad", r.Bytes(aadLen(r)))
+		} else {
+			b.add("pt", r.Bytes(r.Intn(64)))
+			c.use(b, "aad", h)
+		}
+		c.run(b, "encpub-held/"+alg)
+	default: // the earlier output as key material to parse
+		b := c.newB("parsekey")
+		c.use(b, "raw", h)
+		c.run(b, "raw=held")
+	}
+}
+
+func genChains(ctx *core.Ctx, n int) {
+	r := ctx.R
+	for k := 0; k < n; k++ {
+		c := newChain(ctx)
+		switch r.Intn(9) {
+		case 0, 1, 2: // EncryptSymmetric -> DecryptSymmetric of its outputs
+			alg := symAlgs[r.Intn(len(symAlgs))]
+			ptLen := chainPtLens[r.Intn(len(chainPtLens))]
+			if strings.HasSuffix(alg, "KW") && strings.HasPrefix(alg, "A") || strings.HasSuffix(alg, "NOPAD") {
+				ptLen = 16 * r.Range(1, 4)
+			}
+			b := c.newB("encsym")
+			b.in.Alg, b.in.KeyKind = alg, "sym"
+			b.add("key", r.Bytes(symKeyLen(alg)))
+			b.addOpt("nonce", r.Bytes(symNonceLen(alg)))
+			b.add("pt", r.Bytes(ptLen))
+			b.addOpt("aad", r.Bytes(aadLen(r)))
+			res := c.run(b, "enc/"+alg)
+			if c.ok() {
+				d := c.newB("decsym")
+				d.in.Alg, d.in.KeyKind = alg, "sym"
+				d.in.Args["key"] = b.in.Args["key"] // the same jwk.Key object
+				d.in.Args["nonce"] = b.in.Args["nonce"]
+				d.in.Args["aad"] = b.in.Args["aad"]
+				c.use(d, "ct", res[0])
+				c.use(d, "tag", res[1])
+				c.run(d, "dec-of-enc/"+alg)
+			}
+		case 3: // aescbcaead Seal -> Open of its output
+			kn := aeadKindNames[r.Intn(4)]
+			ak := aeadKinds[kn]
+			b := c.newB("seal")
+			b.in.Kind = kn
+			b.add("key", r.Bytes(ak.enc+ak.mac))
+			b.add("nonce", r.Bytes(16))
+			ptLen := pickLen(r)
+			b.add("pt", r.Bytes(ptLen))
+			b.addOpt("aad", r.Bytes(aadLen(r)))
+			if r.Bool() {
+				b.in.Args["dst"] = view{Arr: -1}
+			} else {
+				b.addS("dst", nil, ptLen+16-ptLen%16+ak.tag+r.Intn(20))
+			}
+			res := c.run(b, "seal/"+kn)
+			if c.ok() && res[0].Arr >= 0 {
+				d := c.newB("open")
+				d.in.Kind = kn
+				d.in.Args["key"] = b.in.Args["key"] // the same AEAD object
+				d.in.Args["nonce"] = b.in.Args["nonce"]
+				d.in.Args["aad"] = b.in.Args["aad"]
+				c.use(d, "ct", res[0])
+				c.run(d, "open-of-seal/"+d.addDst(d.in.Args["ct"], res[0].Len)+"/"+kn)
+			}
+		case 4: // Wrap -> Unwrap
+			kw := r.Bytes([]int{16, 24, 32}[r.Intn(3)])
+			b := c.newB("wrap")
+			b.in.KWKey = kw
+			b.add("cek", r.Bytes(8*r.Range(2, 8)))
+			res := c.run(b, "wrap")
+			if c.ok() {
+				d := c.newB("unwrap")
+				d.in.KWKey = kw
+				c.use(d, "ct", res[0])
+				c.run(d, "unwrap-of-wrap")
+			}
+		case 5: // Pad -> Unpad
+			b := c.newB("pad")
+			b.in.Size = []int{16, 16, 8, 32}[r.Intn(4)]
+			b.add("buf", r.Bytes(pickLen(r)))
+			res := c.run(b, "pad")
+			if c.ok() {
+				d := c.newB("unpad")
+				d.in.Size = b.in.Size
+				c.use(d, "buf", res[0])
+				c.run(d, "unpad-of-pad")
+			}
+		case 6: // Sign -> Verify
+			alg := []string{kitcrypto.Algorithm_EdDSA, kitcrypto.Algorithm_ES256, kitcrypto.Algorithm_ES384, kitcrypto.Algorithm_RS256,
+				kitcrypto.Algorithm_PS256, kitcrypto.Algorithm_RS512}[r.Intn(6)]
+			kk := map[string]string{kitcrypto.Algorithm_EdDSA: "ed", kitcrypto.Algorithm_ES256: "p256", kitcrypto.Algorithm_ES384: "p384",
+				kitcrypto.Algorithm_RS256: "rsa", kitcrypto.Algorithm_PS256: "rsa", kitcrypto.Algorithm_RS512: "rsa"}[alg]
+			b := c.newB("sign")
+			b.in.Alg, b.in.KeyKind = alg, kk+"-priv"
+			b.add("digest", r.Bytes(hashLen(alg)))
+			res := c.run(b, "sign/"+alg)
+			if c.ok() {
+				d := c.newB("verify")
+				d.in.Alg, d.in.KeyKind = alg, kk+"-pub"
+				d.in.Args["digest"] = b.in.Args["digest"]
+				c.use(d, "sig", res[0])
+				c.run(d, "verify-of-sign/"+alg)
+			}
+		case 7: // EncryptPublicKey -> DecryptPrivateKey
+			alg := []string{kitcrypto.Algorithm_RSA_OAEP, kitcrypto.Algorithm_RSA_OAEP_256, kitcrypto.Algorithm_RSA1_5}[r.Intn(3)]
+			b := c.newB("encpub")
+			b.in.Alg, b.in.KeyKind = alg, "rsa-pub"
+			b.add("pt", r.Bytes(chainPtLens[r.Intn(7)]))
+			b.addOpt("aad", r.Bytes(aadLen(r)))
+			res := c.run(b, "encpub/"+alg)
+			if c.ok() {
+				d := c.newB("decpriv")
+				d.in.Alg, d.in.KeyKind = alg, "rsa-priv"
+				d.in.Args["aad"] = b.in.Args["aad"]
+				c.use(d, "ct", res[0])
+				c.run(d, "decpriv-of-encpub/"+alg)
+			}
+		default: // decrypt one stored record, then others
+			c.decryptRecord(view{Arr: -1}, "dec-record")
+		}
+		for f := r.Range(1, 4); f > 0; f-- {
+			c.follow()
+		}
 	}
 }
 
@@ -1332,7 +1844,8 @@ func c17Gen(ctx *core.Ctx) {
 	genSym(ctx, 14*m, false)
 	genSym(ctx, 3*m, true)
 	genAsym(ctx, 4*m)
-	genParseKey(ctx, 60*m)
+	genParseKey(ctx, 200*m)
+	genChains(ctx, 130*m)
 }
 
 func main() {
